@@ -473,7 +473,7 @@ func main() {
 func converse(run *kit.Run) {
 	r := build(configs[1])
 	hold := make(chan struct{})
-	started := make(chan struct{}, 3)
+	started := make(chan struct{}, 16)
 	// a handler that never returns keeps a request in flight (registered before any reader is parked)
 	inflight := make(chan struct{})
 	r.MustHandle("GET", "/slow", func(c fox.Context) { close(inflight); <-hold })
@@ -494,7 +494,53 @@ func converse(run *kit.Run) {
 			break
 		}
 	}()
-	for i := 0; i < 3; i++ {
+	// every other iterator of a snapshot, each suspended in its loop body after the first result
+	parkedIters := []func(it fox.Iter, body func()){
+		func(it fox.Iter, body func()) {
+			for range it.Reverse(seq("GET", "POST"), "h.com", "/s/a") {
+				body()
+				break
+			}
+		},
+		func(it fox.Iter, body func()) {
+			for range it.Prefix(seq("GET"), "/s") {
+				body()
+				break
+			}
+		},
+		func(it fox.Iter, body func()) {
+			for range it.Routes(seq("GET", "POST"), "/s/a") {
+				body()
+				break
+			}
+		},
+		func(it fox.Iter, body func()) {
+			for range it.Methods() {
+				body()
+				break
+			}
+		},
+		func(it fox.Iter, body func()) {
+			for range it.Prefix(seq("GET"), "/deep/abc") {
+				body()
+				break
+			}
+		},
+	}
+	for _, pi := range parkedIters {
+		pi := pi
+		go pi(r.Iter(), func() { started <- struct{}{}; <-hold })
+	}
+	// and a Lookup context that is never closed
+	go func() {
+		_, cc, _ := r.Lookup(nil, req("GET", "", "/p/1/c/x"))
+		started <- struct{}{}
+		<-hold
+		if cc != nil {
+			cc.Close()
+		}
+	}()
+	for i := 0; i < 3+len(parkedIters)+1; i++ {
 		<-started
 	}
 	go r.ServeHTTP(&nullW{http.Header{}}, req("GET", "", "/slow"))
@@ -512,7 +558,7 @@ func converse(run *kit.Run) {
 	run.Case("converse|writers-while-readers-hold-snapshots", true)
 	if !ok {
 		if g := kit.BlockedOnMutex(kit.AllStacks(), "(*Router).Handle", "(*Router).Update", "(*Router).Delete", "(*Router).Updates", "txnWith"); g != "" {
-			run.Violate("writer-blocked-by-reader", "writers do not complete while readers hold a read transaction, a View, an iterator and an in-flight request\n"+kit.TrimStack(g), nil)
+			run.Violate("writer-blocked-by-reader", "writers do not complete while readers hold a read transaction, a View, suspended iterators of every kind, an open Lookup context and an in-flight request\n"+kit.TrimStack(g), nil)
 		} else {
 			run.Inconclusive("writers did not complete within the watchdog while readers were parked")
 		}
